@@ -334,10 +334,10 @@ func runHandlerOrder(run *vk.Run, transports []string, emitters, burst int, big 
 		}
 		if inv > 0 {
 			// "rare": the residual of the known finding (a dispatch goroutine descheduled for longer than the
-			// grace, about 1 in 10^4 events, more under load); "systematic": at least 5 inversions and at
-			// least 2 % of the entries of this case — not explained by scheduling accidents.
+			// grace, about 1 in 10^4 events, more on a loaded machine); "systematic": at least 10 inversions and at
+			// least 10 % of the entries of this case — not explained by scheduling accidents.
 			rate := "rare"
-			if inv >= 5 && inv*50 >= n {
+			if inv >= 10 && inv*10 >= n {
 				rate = "systematic"
 			}
 			run.Logf("handler-order inversions: %d of %d (%s, %s, %d emitters, big=%v): %s", inv, n, dir, strings.Join(transports, "+"), emitters, big, rate)
@@ -391,7 +391,7 @@ outer:
 				}
 			}
 			if rep < run.Pick(2, 8) {
-				runHandlerOrder(run, tr, 1+rep%2, 24, true)
+				runHandlerOrder(run, tr, 1+rep%2, 60, true)
 			}
 		}
 		if run.Violations() > 30 {
